@@ -161,10 +161,46 @@ def run_sched(case):
             for i in range(n)]
 
 
+def run_defaults(case):
+    """the process-wide defaults are changed in the main thread; calls that rely on them are made in other threads and,
+    afterwards, in the main thread itself: the defaults are the process's, not a thread's"""
+    import hl7apy
+    hl7apy.set_default_version(case["version"])
+    hl7apy.set_default_validation_level(case["level"])
+
+    def calls():
+        from hl7apy.core import Message, Segment
+        from hl7apy.factories import datatype_factory
+        from hl7apy.parser import parse_segment
+        out = []
+        for fn in (lambda: Message("ADT_A01").msh.msh_12.to_er7(), lambda: Segment("PID").version,
+                   lambda: digest(datatype_factory("NM", "abc")), lambda: digest(datatype_factory("DT", "20200101")),
+                   lambda: parse_segment("PID|1||5").validation_level, lambda: hl7apy.get_default_version(),
+                   lambda: hl7apy.get_default_validation_level()):
+            try:
+                out.append(str(fn()))
+            except Exception as ex:
+                out.append("exc:" + exc_name(ex))
+        return out
+    res = [None, None]
+
+    def th(i):
+        res[i] = calls()
+    ts = [threading.Thread(target=th, args=(i,)) for i in (0, 1)]
+    for t in ts:
+        t.start()
+    for t in ts:
+        t.join(60)
+    alone = calls()
+    return [{"k": "job", "mode": "cold-defaults", "thread": i, "job": ["defaults", case["version"], str(case["level"])],
+             "result": "|".join(res[i] or ["none"]), "alone": "|".join(alone), "sched": "defaults:%s:%s" % (case["version"], case["level"])}
+            for i in (0, 1)]
+
+
 if __name__ == "__main__":
     case = json.loads(sys.argv[1])
     try:
-        ev = run_race(case) if case["mode"] == "race" else run_sched(case)
+        ev = run_race(case) if case["mode"] == "race" else run_defaults(case) if case["mode"] == "defaults" else run_sched(case)
     except Exception as ex:
         ev = [{"harness_error": repr(ex)}]
     sys.stdout.write("\nCOLD-EVENTS " + json.dumps(ev) + "\n")
